@@ -20,6 +20,26 @@ CLAIMED = {
               "op@X for vector / matrix / batched / broadcast-batched X, X@op, op.mT@X, op.mT.to_dense()). Exhaustive in "
               "structure within the bounds, sampled in values."),
         design="5/C01"),
+    "C02": dict(
+        engine="E1-denote-replay",
+        technique="TLA+ algebra-on-denotations model (LOAlgebra) enumerated by TLC; depth-2 programs replayed into the library step by step",
+        text=("TLC enumerates depth-2 expression programs (spec/MC_C02.tla): every ordered pair of the 33 operator classes x {+,-,@} x "
+              "batch-shape pairs, class x tensor operand in both orders, class x 7 scalar kinds x {*, reflected *, /}, class x 18 unary "
+              "batch / diagonal operations, PSD class pairs x root-based operations (elementwise product, add_low_rank, cat_rows, batch prod), "
+              "each followed by a second operation on the result; TLC checks the algebra invariants and logs the exact dense value of every "
+              "step; the replay compares shape and value after each step in several public spellings. Result class is ignored; an explicit "
+              "not-supported error is accepted only in cells of spec/unsupported_C02.json."),
+        design="5/C02"),
+    "C03": dict(
+        engine="E1-denote-replay",
+        technique="TLA+ index-language spec: TLC refinement check of an implementation-shaped __getitem__ model against ideal torch semantics, plus replay of TLC-generated index behaviours",
+        text=("(1) spec/LOIndex.tla holds the ideal torch index semantics (S-layer) and transcriptions of __getitem__'s normalisation, "
+              "_compute_getitem_size and _is_tensor_index_moved_to_start (M-layer); TLC checks M refines S for every index tuple over 16 "
+              "item kinds per position on the listed shapes (this found the `-1 -> slice(-1,0)` and `tensor,int,tensor` defects in the model; "
+              "the thorough tier re-checks that the defective model variants are rejected). (2) TLC generates per class x batch shape chunks of "
+              "index tuples with exact expected values; each is cross-checked against torch on the dense tensor and replayed into the library "
+              "with the debug setting on and off; diagonal() too."),
+        design="5/C03"),
 }
 
 NOT_YET = {}
